@@ -222,6 +222,11 @@ def gen_job(seed, profile="general"):
             mesh["extra_point"] = [0.5 * bb[0], bb[1] + gap] + ([0.5 * bb[2]] if dim == 3 else [])
             if pick == "mpc":
                 extra.append({"type": "MultiPointConstraint", "points": {"axis": 1, "at": "max"}, "centerpoint": {"at": "extra"}, "skip": [r.random() < 0.3 for _ in range(dim)], "multiplier": r.choice([1.0, 10.0, 100.0]), "negative_index": r.random() < 0.5})
+                if kpick(seed, "mpc-face", 3) == 0:
+                    # the face with the lowest point numbers (the same numbers whatever the height of the
+                    # model), and an earlier model of another height in the same process (height study)
+                    extra[-1]["points"] = {"axis": dim - 1, "at": "min"}
+                    doc["height_study"] = True
                 if not any(extra[-1]["skip"]) and r.random() < 0.6:
                     extra[-1]["free_centerpoint"] = True  # every axis coupled: the centre point may float
                 if all(extra[-1]["skip"]):
@@ -330,6 +335,10 @@ def gen_job(seed, profile="general"):
     if r.random() < 0.08:
         # another model of the same kind was post-processed earlier in the process
         doc["prelude"] = [r.choice(["extrapolate", "extrapolate", "project"])]
+    if kpick(seed, "shadow-model", 4) == 0:
+        # another model alive in the process that shares the material object of the first body and is
+        # evaluated between the substeps of this job
+        doc["shadow_model"] = True
     if kpick(seed, "region-look", 6) == 0:
         # someone looked at a region of the same template earlier in the process (plotted its
         # quadrature points scaled by their weights, copied it, inverted the scheme)
